@@ -46,7 +46,9 @@ WTOKENS = [
     ("pair-fefe", b"\xfe\xfe", 2),
 ]
 NTOKENS = [("a", b"a", 1), ("e9", b"\xe9", 1), ("80", b"\x80", 1), ("at", b"@", 1), ("a4", b"\xa4", 1)]
-BAD_UTF8 = [b"a", b"\xc3\xa9", b"\xe4\xbd\xa0", b"\xc3", b"\xe4\xbd", b"\x80", b"\xff", b"\xc0\x80", b"\xf0\x9f\x98"]
+BAD_UTF8 = [b"a", b"\xc3\xa9", b"\xe4\xbd\xa0", b"\xc3", b"\xe4\xbd", b"\x80", b"\xff", b"\xc0\x80", b"\xf0\x9f\x98",
+            # the last scalar value, the first sequence past it, the largest 4-byte form, a surrogate, a 5-byte lead
+            b"\xf4\x8f\xbf\xbf", b"\xf4\x90\x80\x80", b"\xf7\xbf\xbf\xbf", b"\xed\xa0\x80", b"\xf8\x88\x80\x80\x80"]
 BAD_WIDE = [b"a", b"@", b"\xa4\xa2", b"\xa4", b"\x81", b"\x7f", b"\x80"]
 
 DEC = "▮◆▒␉␌␍␊°±␤␋┘┐┌└┼⎺⎻─⎼⎽├┤┴┬│≤≥π≠£·"
